@@ -35,9 +35,10 @@ PROPS = {
     "C05": _p(["generate", "main", "find"], COMMON_TRUST,
               "exact verdict of check_references (ok iff files found, not interrupted, tree_missing == 0); the three `missing` filters proved equal to one spec "
               "predicate; reported locations are the entries' line/column (pest's line_col trusted); count printed only on the all-success path"),
-    "C06": _p(["generate", "find", "entry"], COMMON_TRUST + " NOT DECIDED: that the PEG grammar recognises the edited statement again (grammar clause).",
-              "clauses proved: no-op on a tree without missing references (both scan and cached path, lock value unchanged); inserted token reads back "
-              "(C12 oracle lemma + entry unit)"),
+    "C06": _p(["generate", "find", "entry", "directive"], COMMON_TRUST + " NOT DECIDED: that the PEG grammar recognises the edited statement again (grammar clause).",
+              "clauses proved: no-op on a tree without missing references (both scan and cached path, lock value unchanged); inserted token reads back: "
+              "token_rule(inserted token) == Some(id) and extract_spec == token_rule (relative to the regex-pattern and parse axioms of spec/token_link.rs), "
+              "structured `ref = N` parses back to N"),
     "C07": _p(["generate", "main", "context"], COMMON_TRUST + " POSIX rename atomicity; async-std write-cache model; fresh temp name. Operation granularity "
               "(not inside a syscall, not power loss).",
               "atomic_inv is a precondition of every mutating shim (= every boundary between two filesystem operations) and a postcondition of every function; "
@@ -49,7 +50,9 @@ PROPS = {
               "macro_of_interest == exact name or module::name; find emits nothing for other names (result == tree_entries)"),
     "C12": _p(["entry", "find", "directive"], "regex crate and str::parse::<u32> are exercised natively on the enumerated set only (BOUNDED, not proved). " + COMMON_TRUST,
               "bounded-exhaustive conformance of the real extraction (through the real parser) to an oracle that Verus proved equal to the token rule and "
-              "compiled; the inserted-token clause is proved (unit entry: C12.inserted; oracle lemma_inserted_token_reads_back)",
+              "compiled; proved: the inserted-token clause (unit entry: C12.inserted; lemma_inserted_token_reads_back) and, relative to two stated axioms on the "
+              "dependencies (meaning of the literal regex pattern; str::parse::<u32> on digit strings, the latter proved by Kani in the thorough tier), "
+              "extract_reference == token_rule (lemma_extract_is_token_rule); the bounded run is what exercises those axioms on the real regex engine",
               level="exploration", extra=[("conformance", _c12.run)],
               technique="Verus-verified and Verus-compiled oracle (token rule == executable twin; inserted-token lemma) + bounded-exhaustive native conformance "
                         "run of the real code; the bounded part is labelled bounded"),
